@@ -301,6 +301,13 @@ def _worker_main(modname, tier, seed, index, nworkers, q):
     import faulthandler
     import signal
     faulthandler.register(signal.SIGUSR1, all_threads=True)   # kill -USR1 <pid> prints where a worker is
+    try:
+        import resource
+        soft, hard = resource.getrlimit(resource.RLIMIT_AS)
+        cap = 8 << 30     # a runaway reference model ends as MemoryError (harness error, exit 2), not in the OOM killer
+        resource.setrlimit(resource.RLIMIT_AS, (cap if hard == resource.RLIM_INFINITY else min(cap, hard), hard))
+    except (ImportError, ValueError, OSError):
+        pass
     t0 = time.time()
     ctx = None
     try:
@@ -458,8 +465,28 @@ def main_run(modname, tier, seed, nworkers=None):
         p.start()
         procs.append(p)
     results = []
-    for _ in range(nworkers):
-        results.append(q.get())
+    import queue as _queue
+    got = set()
+    dead_since = {}
+    while len(results) < nworkers:
+        try:
+            r = q.get(timeout=5)
+            results.append(r)
+            got.add(r[1])
+            continue
+        except _queue.Empty:
+            pass
+        # a worker that has exited without delivering a result (killed by the OOM killer, a signal, os._exit) must not
+        # leave the run waiting for ever: report it as a harness error (exit 2, inconclusive)
+        now = time.time()
+        for i, p in enumerate(procs):
+            if i in got or p.is_alive():
+                continue
+            dead_since.setdefault(i, now)
+            if now - dead_since[i] > 20:
+                got.add(i)
+                results.append(("error", i, Stats().to_dict(), {"detail": "worker %d exited with code %s without reporting (killed?)" % (i, p.exitcode),
+                                                                  "trace": ""}, now - t0))
     for p in procs:
         p.join()
     wall = time.time() - t0
